@@ -68,7 +68,8 @@ def phantomStart (nodes : List PyId) : Int :=
 
 /-- `_augmented_projection`: one phantom node per edge of order ≥ 1, labelled consecutively -/
 def phantomIds (h : Net) : List PyId :=
-  ((h.edges.filter (fun p => 2 ≤ p.2.length)).zipIdx).map (fun p => PyId.int (phantomStart h.nodes + (p.2 : Int)))
+  (List.range (h.edges.filter (fun p => 2 ≤ p.2.length)).length).map
+    (fun (k : Nat) => PyId.int (phantomStart h.nodes + (k : Int)))
 
 /-- nodes of the augmented graph `G` (networkx merges equal labels) -/
 def augmentedNodes (h : Net) : List PyId := dedup (h.nodes ++ phantomIds h)
@@ -188,8 +189,8 @@ def polyOf (pos : Pos) (p : Edge) : Poly := { e := p, verts := ccwSort (p.2.map 
 /-- `perm` is an admissible result of `np.argsort(sizes)`: a permutation of the indices along which the
     sizes are non-decreasing -/
 def isArgsort (sizes : List Nat) (perm : List Nat) : Bool :=
-  perm.length == sizes.length && (List.range sizes.length).all (fun i => perm.contains i) &&
-  (perm.zip perm.tail).all (fun p => sizes.getD p.1 0 ≤ sizes.getD p.2 0)
+  perm.isPerm (List.range sizes.length) &&
+  decide (perm.Pairwise (fun i j => sizes.getD i 0 ≤ sizes.getD j 0))
 
 /-- a stable argsort (what numpy's insertion/merge sort gives) -/
 def stableArgsort (sizes : List Nat) : List Nat :=
